@@ -45,3 +45,47 @@ package traffic
 //@   let amount0 = bigval(trafficOf(s, registered(ref(s.addressBook), peer)).transferChequeTraffic)
 //@   ensures rejected-not-credited: result != nil && rec0 != nil ==> trafficOf(s, reg) == rec0 && rec0.transferChequeTraffic == credit0 && bigval(credit0) == amount0
 //@   callassert ChequeStore.ReceiveCheque from-registered-issuer: cheque.Cheque.Beneficiary == chainAddress && cheque.Cheque.Recipient == s.chainAddress
+
+//@ # ---- C31: issuing a cheque never touches the record of what has been cashed ----------------
+//@ # external collaborators of issue(): read-only as far as the traffic records are concerned
+//@ extern func github.com/gauss-project/aurorafs/pkg/settlement.NotifyPaymentFunc
+//@   assigns nothing
+//@ extern func (github.com/gauss-project/aurorafs/pkg/settlement/traffic/cheque.ChequeSigner).Sign
+//@   assigns nothing
+//@ extern func (github.com/gauss-project/aurorafs/pkg/settlement/traffic/trafficprotocol.Interface).EmitCheque
+//@   assigns nothing
+//@ extern func (github.com/gauss-project/aurorafs/pkg/settlement/traffic/cheque.ChequeStore).PutSendCheque
+//@   assigns nothing
+
+//@ func (*Service).AvailableBalance
+//@   property C31
+//@   requires s.trafficPeers.trafficPeers != nil && s.trafficPeers.balance != nil
+//@   requires forall k string :: present(s.trafficPeers.trafficPeers, k) ==> s.trafficPeers.trafficPeers[k] != nil && s.trafficPeers.trafficPeers[k].retrieveChainTraffic != nil && s.trafficPeers.trafficPeers[k].retrieveTraffic != nil
+//@   ensures result1 == nil && result0 != nil && fresh(result0)
+//@   note only memory safety and freshness of the result are proved; the value (balance + sum of cashed - sum of traffic over the map) needs a sum over the map and is not under contract
+//@   assigns nothing
+//@   loop 1 invariant cashed != nil && transfer != nil && fresh(cashed) && fresh(transfer)
+
+//@ func (*Service).putSendCheque
+//@   property C31
+//@   requires traffic != nil && cheque != nil && cheque.CumulativePayout != nil && traffic.retrieveTraffic != nil && s.chequeStore != nil
+//@   let payout = bigval(cheque.CumulativePayout)
+//@   let owed0 = bigval(traffic.retrieveTraffic)
+//@   ensures cheque-total-recorded: traffic.retrieveChequeTraffic == cheque.CumulativePayout
+//@   ensures owed-covers-cheques: bigval(traffic.retrieveTraffic) == max(owed0, payout)
+//@   ensures cashed-untouched: traffic.retrieveChainTraffic == old(traffic.retrieveChainTraffic) && bigval(traffic.retrieveChainTraffic) == old(bigval(traffic.retrieveChainTraffic))
+//@   assigns traffic.retrieveChequeTraffic, traffic.retrieveTraffic
+
+//@ func (*Service).issue
+//@   property C31
+//@   requires s.notifyPaymentFunc != nil && s.chequeSigner != nil && s.protocol != nil && s.chequeStore != nil && balance != nil && bigval(balance) > 0
+//@   requires traffic != nil && traffic.retrieveChainTraffic != nil && traffic.retrieveChequeTraffic != nil && traffic.retrieveTraffic != nil
+//@   requires s.trafficPeers.trafficPeers != nil && s.trafficPeers.balance != nil
+//@   requires forall k string :: present(s.trafficPeers.trafficPeers, k) ==> s.trafficPeers.trafficPeers[k] != nil && s.trafficPeers.trafficPeers[k].retrieveChainTraffic != nil && s.trafficPeers.trafficPeers[k].retrieveTraffic != nil
+//@   let cashed0 = bigval(traffic.retrieveChainTraffic)
+//@   let sent0 = bigval(traffic.retrieveChequeTraffic)
+//@   let amount = bigval(balance)
+//@   ensures cashed-record-untouched: traffic.retrieveChainTraffic == old(traffic.retrieveChainTraffic) && bigval(traffic.retrieveChainTraffic) == cashed0
+//@   ensures failed-issue-changes-nothing: result != nil ==> bigval(traffic.retrieveChequeTraffic) == sent0
+//@   ensures payout-strictly-increases: result == nil ==> bigval(traffic.retrieveChequeTraffic) == sent0 + amount
+//@   ensures never-beyond-owed: result == nil ==> bigval(traffic.retrieveChequeTraffic) <= bigval(traffic.retrieveTraffic)
